@@ -27,12 +27,16 @@ def monitor(sc, views):
     res = []
     prev = None
     faulted = False
+    unsafe = False      # a store fault hit the actor's OWN {sub}/{set sub} naming O (the three-write acceptance: known finding)
     sessions = sessions_of(sc)
     for k, v in enumerate(views):
         fault, kind, args = sc.ops[k]
         if fault != "N":
             faulted = True
         actor = sessions.get(args[0]) if args else None
+        if fault != "N" and own_request_naming_o(kind, args, actor):
+            unsafe = True
+        res += offer_laws(k, kind, args, actor, prev, v, unsafe)
         ow = owners(v.subs)
         tag = "-after-store-fault" if faulted else ""
         # exactly one effective owner, equal to the owner field, in the store and in the cache
@@ -83,6 +87,138 @@ def monitor(sc, views):
                 if not mine or int(mine[0].split()[1]) < 400:
                     res.append(("owner-cannot-leave", k, "owner's unsubscribe answered %s" % mine))
         prev = v
+    return res
+
+
+def mode_text(h):
+    if h in ("-", "", None):
+        return ""
+    try:
+        return bytes.fromhex(str(h)).decode("latin1")
+    except ValueError:
+        return str(h)
+
+
+def own_request_naming_o(kind, args, actor):
+    """asks_op of PropC06.v, read generously (any o/O in the mode text)"""
+    if kind == "sub":
+        return "o" in mode_text(args[1]).lower()
+    if kind == "setsub":
+        return args[1] in (0, actor) and "o" in mode_text(args[2]).lower()
+    return False
+
+
+def modes_of(rows, keys=("want", "given", "deleted")):
+    return {u: tuple(r.get(x) for x in keys) for u, r in rows.items()}
+
+
+def offer_laws(k, kind, args, actor, prev, v, unsafe):
+    """Laws about the OFFER of ownership, evaluated whatever faults came before:
+    failed-offer-grants-nothing (c06_failed_offer_grants_nothing): an attached session's {set sub} naming another
+    user that is not acknowledged leaves the stored and the cached modes and the owner fields as they were;
+    transfer-needs-stored-grant (c06_transfer_needs_stored_grant): as long as no store fault hit an own request
+    naming O, topics.owner moves only to the actor of an own {sub}/{set sub} whose STORED live row had O in given."""
+    res = []
+    if prev is None:
+        return res
+    if kind == "setsub" and args[1] not in (0, actor) and prev.loaded and args[0] in prev.csess:
+        acked = [t for s, t in v.frames if s == args[0] and t.startswith("ctrl ") and int(t.split()[1]) < 400]
+        if not acked:
+            if modes_of(v.subs) != modes_of(prev.subs) or v.topic.get("owner") != prev.topic.get("owner"):
+                res.append(("failed-offer-grants-nothing", k, "unacknowledged {set sub user=%s} of user %s changed the store: %s -> %s"
+                            % (args[1], actor, modes_of(prev.subs), modes_of(v.subs))))
+            elif v.loaded and (modes_of(v.cusers, ("want", "given")) != modes_of(prev.cusers, ("want", "given"))
+                               or v.cache.get("owner") != prev.cache.get("owner")):
+                res.append(("failed-offer-grants-nothing", k, "unacknowledged {set sub user=%s} of user %s changed the live topic: cached %s -> %s (store unchanged)"
+                            % (args[1], actor, modes_of(prev.cusers, ("want", "given")), modes_of(v.cusers, ("want", "given")))))
+    if not unsafe and prev.topic and v.topic and prev.topic.get("owner") != v.topic.get("owner"):
+        n = v.topic.get("owner")
+        row = prev.subs.get(n)
+        own = kind == "sub" or (kind == "setsub" and args[1] in (0, actor))
+        if not (own and actor == n and row is not None and not row["deleted"] and "O" in row["given"]):
+            res.append(("transfer-needs-stored-grant", k, "topics.owner moved %s -> %s by %s of user %s although the stored grant of %s before the step was %s"
+                        % (prev.topic.get("owner"), n, kind, actor, n, None if row is None else "%s/%s deleted=%s" % (row["want"], row["given"], row["deleted"]))))
+    return res
+
+
+def offer_scenarios(ctx, total):
+    """Directed histories around the offer of ownership: everybody attaches; an owner / administrator
+    {set sub}s another user (mostly a mode with O) with a store fault on THAT request (F1 = the Subs.Update /
+    Subs.Get fails, later calls, crash) or without; the target then accepts (own {set sub}/{sub} naming O,
+    fault-free); then detach/unload/restart and reload.  Faults only on requests naming another user, so
+    every history is inside hist_ok_c06x and all laws apply."""
+    from props import topiclib as T
+    rng = ctx.rng
+    res = []
+    omodes = ["JRWPASDO", "JRWPASDO", "JRWPSO", "JRWPO", "JRWPASO"]
+    for i in range(max(8, int(total * 0.2))):
+        sc = T.Scn("x%d" % i)
+        n = rng.choice([2, 2, 3, 3, 4])
+        sc.nusers = n
+        sc.head.append("scn %s owner=1 auth=%d anon=0 ownerwant=255 ownergiven=255" % (sc.id, rng.choice([47, 47, 63, 15])))
+        for u in range(1, n + 1):
+            sc.head.append("user %d acc=%d" % (u, rng.choice([47, 47, 63])))
+        subscribed = [1]
+        for u in range(2, n + 1):
+            if u == 2 or rng.random() < 0.7:
+                want = rng.choice([47, 47, 63, 127, 127])
+                given = rng.choice([47, 63, 127, 127, 255])
+                sc.head.append("subrow %d want=%d given=%d" % (u, want, given))
+                subscribed.append(u)
+        sid_of = {}
+        s = 0
+        for u in range(1, n + 1):
+            for _ in range(rng.choice([1, 1, 1, 2])):
+                s += 1
+                sc.sessions[s] = u
+                sid_of.setdefault(u, s)
+                sc.head.append("sess %d %d" % (s, u))
+        ops = []
+        for u in subscribed:
+            ops.append(("N", "sub", [sid_of[u], "-", 0]))
+        owner = 1
+        for _ in range(rng.choice([1, 1, 2, 3])):
+            tgt = rng.choice([u for u in range(1, n + 1) if u != owner])
+            offerer = owner if rng.random() < 0.85 else rng.choice(subscribed)
+            if offerer == tgt:
+                offerer = owner
+            flt = rng.choice(["F1", "F1", "F1", "N", "C1", "F2", "F3"])
+            mode = rng.choice(omodes) if rng.random() < 0.85 else rng.choice(["JRWPAS", "JRWPASD", "JRWP", "N"])
+            ops.append((flt, "setsub", [sid_of[offerer], tgt, T.hx(mode)]))
+            if flt[0] == "C":
+                for u in subscribed:
+                    if rng.random() < 0.8:
+                        ops.append(("N", "sub", [sid_of[u], "-", 0]))
+            r = rng.random()
+            if r < 0.2:
+                ops.append(("N", "getsub", [sid_of[offerer]]))
+            elif r < 0.3:
+                ops.append(("N", "setsub", [sid_of[owner], tgt, T.hx(rng.choice(omodes))]))   # a second, fault-free offer
+            # the acceptance (fault-free)
+            acc = rng.choice(omodes)
+            if rng.random() < 0.8:
+                ops.append(("N", "setsub", [sid_of[tgt], rng.choice([0, tgt]), T.hx(acc)]))
+            else:
+                ops.append(("N", "sub", [sid_of[tgt], T.hx(acc), 0]))
+            if rng.random() < 0.6:
+                # reload the topic from the store
+                if rng.random() < 0.5:
+                    ops.append(("N", "restart", []))
+                else:
+                    for ss in sorted(sc.sessions):
+                        ops.append(("N", "leave", [ss, 0]))
+                    ops.append(("N", "unload", []))
+                for u in range(1, n + 1):
+                    if rng.random() < 0.8:
+                        ops.append(("N", "sub", [sid_of[u], "-", 0]))
+                ops.append(("N", "getsub", [sid_of[owner]]))
+            if rng.random() < 0.5:
+                # who owns the topic now tries to use it / the previous owner tries to
+                ops.append(("N", "setsub", [sid_of[rng.choice([owner, tgt])], rng.choice([u for u in range(1, n + 1)]), T.hx(rng.choice(["JRWPS", "JRWPAS", "JRWPASDO"]))]))
+            if rng.random() < 0.3:
+                ops.append(("N", "leave", [sid_of[rng.choice([owner, tgt])], 1]))
+        sc.ops = ops
+        res.append(sc)
     return res
 
 
@@ -169,6 +305,95 @@ def gate_check(ctx, cases):
     return len(cases), len(mism), len(fails)
 
 
+# ---------------------------------------------------------------------------
+# {del what=topic} with the POPULATION of the topic (Sys/OwnerGateC06x.v against the real server):
+# category x loaded/attached x number of subscribers x requester kind x hard/soft, exhaustively.
+
+def popgate_cases():
+    res = []
+    for hard in (1, 0):
+        for nsubs in (1, 2, 3):
+            for req in ("owner", "member", "none"):
+                if req == "member" and nsubs < 2:
+                    continue
+                for loaded, attached in ((0, 0), (1, 0), (1, 1)):
+                    if attached and req == "none":
+                        continue            # attaching subscribes
+                    if loaded and not attached and req == "owner" and nsubs == 1:
+                        continue            # nobody else could keep the topic loaded
+                    res.append(("grp", loaded, nsubs, req, attached, hard))
+        for nsubs in (2, 1):
+            for req in ("member", "former", "none"):
+                if req == "former" and nsubs != 1:
+                    continue                # with two live subscriptions the other party is a member too
+                for loaded, attached in ((0, 0), (1, 0), (1, 1)):
+                    if attached and req != "member":
+                        continue
+                    if loaded and not attached and req == "member" and nsubs == 1:
+                        continue
+                    res.append(("p2p", loaded, nsubs, req, attached, hard))
+    return res
+
+
+def popgate_model_line(c):
+    cat, loaded, nsubs, req, attached, hard = c
+    own = 1 if req == "owner" else 0
+    sub = 1 if req in ("owner", "member") else 0
+    return "delgate %s %d %d %d %d %d %d" % (cat, loaded, own, nsubs if loaded else 0, sub, own, nsubs)
+
+
+def popgate_check(ctx, cases):
+    """-> (cases run, mismatches, law failures); laws on the real server's answers: a GROUP topic is deleted for
+    everybody only at its owner's request (owner-only-op), nobody else's subscription disappears
+    (owner-only-op-foreign-subscription-lost), the request is answered."""
+    ok1, _ = ctx.build_runner()
+    ok2, _ = ctx.build_main()
+    if not (ok1 and ok2):
+        return 0, 0, 0
+    ilines = ["delgate %s %d %d %s %d %d" % c for c in cases]
+    mlines = [popgate_model_line(c) for c in cases]
+    rc, impl, log = ctx.run_main_lines("c06x", ilines)
+    if rc != 0 or len(impl) != len(cases):
+        ctx.violation("monitor", "server-crashed", "the server process died while running the {del topic} population cases: " + log[-1500:],
+                      {"gate": ilines, "log": log[-4000:]})
+        return len(cases), 0, 1
+    rc2, model, err = ctx.run_model("c06", mlines)
+    if rc2 != 0 or len(model) != len(cases):
+        ctx.violation("proof", "runner-crashed", "model runner failed on the {del topic} population cases: " + err[-1500:], {"theorem_or_obligation": "model runner c06"})
+        return len(cases), 0, 0
+    fails, mism = [], []
+    for c, il, i, m in zip(cases, ilines, impl, model):
+        w = i.split()
+        if len(w) < 2 or w[0] not in ("all", "own", "none") or w[1] == "0":
+            fails.append(("owner-only-op-unanswered", il, i))
+            continue
+        if c[0] == "grp":
+            if w[0] == "all" and c[3] != "owner":
+                fails.append(("owner-only-op", il, i))
+            if "lost=" in i:
+                fails.append(("owner-only-op-foreign-subscription-lost", il, i))
+        setup = ["loaded=%d" % c[1], "attached=%d" % c[4], "count=%d" % (c[2] if c[1] else -1), "scount=%d" % c[2]]
+        if w[:2] != m.split() or any(x not in w for x in setup):
+            mism.append((il, i, m))
+    seen = set()
+    for law, il, i in fails:
+        if law not in seen:
+            seen.add(law)
+            ctx.violation("monitor", law, "law %s fails on the real server: request '%s' (category, loaded, subscribers, requester, attached, hard) answered '%s' (%d such cases)"
+                          % (law, il, i, len([1 for f in fails if f[0] == law])), {"gate": [il], "law": law, "observed": i})
+    if mism and not fails:
+        il, i, m = mism[0]
+        ctx.violation("corr", "correspondence-owner-gate-population",
+                      "gate model Sys/OwnerGateC06x.v and the server disagree on %d of %d {del topic} population cases; first: '%s' server '%s' model '%s'; no group topic was deleted by a non-owner in any of the %d cases"
+                      % (len(mism), len(cases), il, i, m, len(cases)), {"correspondence": "owner-only gate with population", "gate": [x[0] for x in mism[:20]]})
+    return len(cases), len(mism), len(fails)
+
+
+def parse_popgate_line(l):
+    w = l.split()
+    return (w[1], int(w[2]), int(w[3]), w[4], int(w[5]), int(w[6]))
+
+
 def parse_gate_line(l):
     w = l.split()
     return (w[1], w[2], int(w[3]), int(w[4]), int(w[5]))
@@ -182,7 +407,13 @@ def run(ctx):
             ctx.coq_props()
             import vlib
             vlib.proof_violation(ctx)
-            n, mm, ff = gate_check(ctx, [parse_gate_line(l) for l in rp["replay"]["gate"]])
+            gl = [l for l in rp["replay"]["gate"] if l.startswith("gate ")]
+            pl = [l for l in rp["replay"]["gate"] if l.startswith("delgate ")]
+            n = 0
+            if gl:
+                n += gate_check(ctx, [parse_gate_line(l) for l in gl])[0]
+            if pl:
+                n += popgate_check(ctx, [parse_popgate_line(l) for l in pl])[0]
             ctx.coverage.update({"evaluations": n, "distinct_nontrivial": n, "rule": "replay of owner-only request cases"})
             ctx.finish()
     else:
@@ -190,9 +421,15 @@ def run(ctx):
         ctx.coverage["owner_only_gate"] = {
             "cases_run_on_real_server": n, "exhaustive_over": "6 request kinds x {owner, administrator without O, pending transferee, stranger} x {not loaded, loaded by another session, attached} x {auth, root}",
             "mismatches_with_gate_model": mm, "law_failures": ff}
+        n2, mm2, ff2 = popgate_check(ctx, popgate_cases())
+        ctx.coverage["del_topic_population_gate"] = {
+            "cases_run_on_real_server": n2,
+            "exhaustive_over": "{group, p2p} x {not loaded, loaded by another session, requester attached} x subscribers {1 (owner alone), 2, 3 / p2p 1, 2} x requester {owner, subscribed non-owner, former p2p party, not subscribed at all} x {hard, soft}; cases that cannot exist are left out",
+            "mismatches_with_gate_model": mm2, "law_failures": ff2}
     statelib.run_stateful(
         ctx, [("perm", 0.0, 0.75), ("perm", 0.12, 0.25)], monitor,
         dict(ops={"sub", "setsub", "delsub", "leave"}, frame=frame_f, line=line_f, keys=("frames", "store", "cache")),
-        rule="seeded random histories over one group topic: subscribe (arbitrary requested modes incl. O, junk), invite / permission change by owner, approvers, sharers, members, pending transferees (seeded O in the grant), strangers; acceptance, self-ban, leave, unsubscribe, eviction, with unload/restart between steps and a share with single store faults; non-trivial = at least one accepted mutating request",
+        extra_scns=offer_scenarios,
+        rule="directed offer/acceptance histories (a fifth of the scenarios: {set sub} naming another user, mostly with O, with a store fault on that request, then the target's acceptance, then a reload) and seeded random histories over one group topic: subscribe (arbitrary requested modes incl. O, junk), invite / permission change by owner, approvers, sharers, members, pending transferees (seeded O in the grant), strangers; acceptance, self-ban, leave, unsubscribe, eviction, with unload/restart between steps and a share with single store faults; non-trivial = at least one accepted mutating request",
         trusted=["projection compared for C06: ctrl replies of sub/set-sub/del-sub/leave requests, stored want/given/deleted per user and topics.owner, cached want/given per user and Topic.owner",
                  "{del topic}, {set desc public|trusted|defacs}, {set tags}: gate model Sys/OwnerGate.v (decision only: who is served, reply code, whether the effect is topic-wide / own subscription / none), compared with the real server on every case of its input space by harness/overlay/server/zz_verif_c06_test.go; the effects themselves (what is deleted, notifications) are not modelled"])
